@@ -175,7 +175,7 @@ class Checker:
     def discharge(self):
         if not self.obs:
             return
-        timeout = 20000 if self.tier == 'quick' else 60000
+        timeout = 12000 if self.tier == 'quick' else 60000
         items = []
         for i, ob in enumerate(self.obs):
             ob.uid = i
@@ -189,7 +189,8 @@ class Checker:
                 self.results[name] = res
         # solver noise must never become a verdict: anything undecided is retried with a 4x budget on few workers
         retry = [(i, smt, cov, timeout * 4) for (i, smt, cov, _) in items if self.results[i]['status'] in ('unknown', 'error')]
-        if retry:
+        # (only a handful of undecided obligations is solver noise; dozens mean the tree or a contract is broken: report, do not grind)
+        if retry and len(retry) <= 6 and not getattr(self, 'no_retry', False):
             with ProcessPoolExecutor(max_workers=min(4, len(retry))) as ex:
                 for name, res in ex.map(solve.work, retry, chunksize=1):
                     res['retried'] = True
